@@ -87,7 +87,7 @@ func replayRender(ctx *core.Ctx, pc *posCase) {
 		allowed[l] = true
 	}
 	ctx.AddEvals(1)
-	rep := map[string]interface{}{"half": "render", "files": files, "allowedLines": pc.Allowed, "desc": pc.D}
+	rep := map[string]interface{}{"half": "render", "files": files, "allowedLines": pc.Allowed, "desc": pc.D, "case": pc}
 	comp, err, _ := core.Compile(files, nil)
 	if err != nil {
 		ctx.ToolError("render layout does not compile (%s): %v\n%s", feat, err, files[0].Text)
@@ -126,4 +126,19 @@ func replayRender(ctx *core.Ctx, pc *posCase) {
 	if len(ctx.Samples) < 7 {
 		ctx.Sample(rep)
 	}
+}
+
+// runRenderReplay re-runs one saved render-half case.
+func runRenderReplay(ctx *core.Ctx, raw []byte) {
+	var v struct {
+		Replay struct {
+			Case *posCase `json:"case"`
+		} `json:"replay"`
+	}
+	if err := json.Unmarshal(raw, &v); err != nil || v.Replay.Case == nil {
+		ctx.ToolError("cannot read render replay: %v", err)
+		return
+	}
+	replayRender(ctx, v.Replay.Case)
+	fmt.Printf("replay: render layout %v re-run\n", v.Replay.Case.D)
 }
